@@ -27,7 +27,7 @@ class RefsOfPath:
 @register
 class PathInitializeLinks(Contract):
     fn = "gfapy/line/group/path/references.py::References._initialize_links"
-    props = ("C12", "C03", "C02")
+    props = ("C12", "C03", "C02", "C06")
     fragment = "L"
     doc = ("for the j-th step (from, to, overlap) of the path: when both segments are known and _search_link finds a stored link, that link is "
            "recorded, with orientation '-' iff it matches the step in complement form WITH THE OVERLAP (is_compatible_complement(from, to, "
